@@ -155,6 +155,11 @@ def thrust_unit(h):
     n, a = arrs(h, ['mass', 'temperature', 'altitude', 'tas', 'rocd', 'acceleration', 'groundspeed'],
                 where={'altitude': lambda x: z3.And(x >= 0, x <= 25000), 'tas': lambda x: x > 0, 'temperature': lambda x: x > 0,
                        'mass': lambda x: x > 0, 'groundspeed': lambda x: x >= 0})
+    # ground speeds may come as whole metres per second in an integer array (np.array([200, 210]))
+    if engine == 'Jet' and h.choice(2) == 1:          # (the element type of the buffer does not depend on the engine type)
+        gi = SArr.symbolic(h.ctx, 'groundspeed_whole', n, sort=z3.IntSort(), where=lambda x: x >= 0)
+        a['groundspeed'] = gi
+        h.ctx.named['groundspeed_is_an_integer_array'] = z3.BoolVal(True)
     cruise = SArr.symbolic(h.ctx, 'in_cruise', n, sort=z3.BoolSort())
     h.trust('ISA pressure (C12) by contract: pressure_at_altitude_isa_bada4 > 0')
     PRES = z3.Function('isa_pressure', z3.RealSort(), z3.RealSort())
@@ -169,7 +174,9 @@ def thrust_unit(h):
         sgr = h.I.call(h.I.getattr(fb, 'calculate_specific_ground_range'),
                        [a['mass'], a['temperature'], a['altitude'], a['tas'], a['rocd'], a['acceleration'], cruise, a['groundspeed']], {})
     except PyExc as e:
-        if e.cls.name in ('TypeError', 'AttributeError', 'KeyError'):
+        if e.cls.name == 'TypeError' and 'ufunc' in repr(e.inst):
+            h.fail('defined-for-integer-typed-profiles', f'{e.inst!r} at {e.inst.where}')
+        elif e.cls.name in ('TypeError', 'AttributeError', 'KeyError'):
             h.fail('parameter-access-works-on-the-librarys-own-parameter-object', f'{e.inst!r} at {e.inst.where}')
         elif e.cls.name == 'NonFiniteResult':
             h.fail('defined-on-plausible-inputs', f'{e.inst!r} at {e.inst.where}')
@@ -380,6 +387,14 @@ def replay(payload):
                 if not np.allclose(got[:-1] - got[1:], steps_d, rtol=1e-12):
                     bad.append(f'{eng}: {nm} update with per-segment lengths {d.tolist()}: steps {np.round(got[:-1] - got[1:], 3).tolist()} '
                                f'instead of the trapezoids {np.round(steps_d, 3).tolist()}')
+            # ground speed given as an integer array
+            try:
+                si = fb.calculate_specific_ground_range(mass, T, alt, tas, rocd, acc, crz, np.round(tas).astype(np.int64))
+                sf = fb.calculate_specific_ground_range(mass, T, alt, tas, rocd, acc, crz, np.round(tas))
+                if not np.allclose(si, sf, rtol=1e-12):
+                    bad.append(f'{eng}: specific ground range for integer ground speeds {si[:3].tolist()} differs from the float ones {sf[:3].tolist()}')
+            except Exception as e:   # noqa
+                bad.append(f'{eng}: specific ground range with an integer ground-speed array: {type(e).__name__}: {e}')
             # the prescribed mass given as a Python int
             for nm, fn, anchor in (('constant_initial_mass', fb.iterate_flight_simulation_constant_initial_mass, 0),
                                    ('constant_final_mass', fb.iterate_flight_simulation_constant_final_mass, -1)):
